@@ -18,6 +18,7 @@ pushes for that version (C02.2) and the spec; (2) the context accessor used for 
 (MINT <= MIDP <= MAXT: no strict comparison, no half-open range); (5) the request the client builds per version has the tags the server's
 parser requires (NONC; for RfcDraft13 VER with the draft-13 wire value, SRV = calc_srv_value(key) only with a key), is framed for
 RfcDraft13 only, the nonce has the protocol's length, and the response parser mirrors the server's framing.
+(6) "Honest server": the replies the project's own server builds are valid for every batch position, i.e. the structure rules of C02 hold.
 """
 NOT_DECIDED = "that the padded request is exactly >= 1024 bytes (arithmetic over message contents); chrono formatting; every batch position (value-level)"
 TRUSTED = ["byteorder read_u64/LittleEndian", "chrono timestamp_opt(secs, nsecs)"]
@@ -373,3 +374,16 @@ def run(ctx):
         want_lo = 12 if sp["versions"][v]["framed"] else 0
         ctx.check("request-shape", "%s/response-parse-offset" % v, okr and lo == ("int", want_lo), "%s response parsed from buf[%d..len]" % (v, want_lo),
                   "%s response is parsed from %s" % (v, fmt(r)), ctx.loc(rr))
+
+    # "the reply of an honest server": the project's own server must be one.  The structure rules of C02 (signed bytes, Merkle path and
+    # index per batch position, response assembly) are therefore obligations of C03 as well: a reply the server assembles wrongly for some
+    # batch position is a reply this client rejects.
+    import importlib
+    from framework import Ctx
+    c2 = importlib.import_module("rules.C02")
+    sub = Ctx("C02", P, ctx.repo, "quick", ctx.feature)
+    c2.run(sub)
+    bad = [i for i in sub.instances if not i["ok"]]
+    ctx.check("honest-server", "server-replies-are-valid-for-every-batch-position(C02)", not bad,
+              "the project's server builds valid replies (C02 structure rules hold: %d instances)" % len(sub.instances),
+              "the project's own server can build a reply the client rejects: " + (bad[0]["detail"] if bad else ""), bad[0].get("loc") if bad else None)
